@@ -407,7 +407,12 @@ impl Render<'_> {
                 }
                 w.push(nm.text());
                 if *nm == Name::Set {
-                    w.push(if args.first().copied().unwrap_or(0) != 0 { "-e".into() } else { "+e".into() });
+                    w.push(match args.first().copied().unwrap_or(0) {
+                        0 => "+e".into(),
+                        1 => "-e".into(),
+                        2 => "+m".into(),
+                        _ => "-m".into(),
+                    });
                 } else {
                     for a in args {
                         w.push(a.to_string());
@@ -822,7 +827,7 @@ impl Gen<'_> {
         let bad = Deco { bad_redir: true, via_command: false };
         let via = Deco { bad_redir: false, via_command: true };
         match self.rng.below(16) {
-            0..=4 => call(Name::Set, &[if self.rng.chance(2, 3) { 1 } else { 0 }]),
+            0..=4 => call(Name::Set, &[*self.rng.pick(&[1, 1, 1, 1, 0, 0, 3, 3, 2])]),
             5 => Cmd::Call(bad, Name::Probe, vec![self.key()]),
             6 => Cmd::Call(bad, *self.rng.pick(&[Name::Colon, Name::Break, Name::Exit, Name::Set]), vec![]),
             7 => Cmd::Call(bad, Name::User(if cx.rank > 0 { self.rng.below(cx.rank as usize) as u32 } else { 9 }), vec![]),
@@ -1349,6 +1354,41 @@ pub fn corpus() -> Vec<Prog> {
         ))),
         Line::Cmd(l1(probe(3, 0))),
     ]);
+    // `return N` inside a subshell / a pipeline element of a function body ends that
+    // subshell with status N; the function goes on
+    v.push(vec![
+        Line::Cmd(l1(Cmd::FunDef(
+            Name::User(0),
+            Box::new(Cmd::Brace(seq(vec![
+                Cmd::Subshell(seq(vec![probe(1, 0), call(Name::Return, &[5]), probe(2, 0)])),
+                probe(3, 0),
+                call(Name::Return, &[7]),
+                probe(4, 0),
+            ]))),
+        ))),
+        Line::Cmd(seq(vec![call(Name::User(0), &[]), probe(5, 0)])),
+    ]);
+    v.push(vec![
+        Line::Cmd(l1(Cmd::FunDef(
+            Name::User(0),
+            Box::new(Cmd::Brace(vec![
+                AndOr {
+                    first: Pipeline {
+                        neg: false,
+                        cmds: vec![
+                            Cmd::Brace(seq(vec![probe(1, 0), call(Name::Return, &[4])])),
+                            Cmd::Brace(seq(vec![probe(2, 0), call(Name::Return, &[6]), probe(3, 0)])),
+                        ],
+                    },
+                    rest: vec![],
+                },
+                simple(probe(4, 0)),
+                simple(Cmd::Subshell(l1(call(Name::Return, &[])))),
+                simple(probe(5, 0)),
+            ])),
+        ))),
+        Line::Cmd(seq(vec![call(Name::User(0), &[]), probe(6, 0)])),
+    ]);
     // a shell error inside the EXIT trap action ends the shell with the error status 2
     // (yash-rs left the stale `$?`; repaired by commit 52e95c4)
     for st in [0u64, 5] {
@@ -1490,6 +1530,29 @@ pub fn templates(a: Cmd, b: Cmd, c: Cmd) -> Vec<(&'static str, Vec<List>)> {
             vec![
                 l1(Cmd::FunDef(Name::User(1), Box::new(for2(seq(vec![a.clone(), b.clone()]))))),
                 seq(vec![call(Name::User(1), &[]), c.clone()]),
+                end(),
+            ],
+        ),
+        (
+            "function with subshell",
+            vec![
+                l1(Cmd::FunDef(Name::User(1), Box::new(Cmd::Brace(seq(vec![Cmd::Subshell(seq(vec![a.clone(), b.clone()])), c.clone(), probe(2, 0)]))))),
+                seq(vec![call(Name::User(1), &[]), probe(3, 0)]),
+                end(),
+            ],
+        ),
+        (
+            "function with pipeline",
+            vec![
+                l1(Cmd::FunDef(
+                    Name::User(1),
+                    Box::new(Cmd::Brace(vec![
+                        ao(Pipeline { neg: false, cmds: vec![a.clone(), Cmd::Brace(seq(vec![b.clone(), probe(2, 0)]))] }, vec![]),
+                        simple(c.clone()),
+                        simple(probe(3, 0)),
+                    ])),
+                )),
+                seq(vec![call(Name::User(1), &[]), probe(4, 0)]),
                 end(),
             ],
         ),
